@@ -202,6 +202,19 @@ pub fn cut_unit(ctx: &Ctx, rng: &mut Rng, o: &mut Out) {
     .map(|s| Source { lang: s.lang, name: format!("{}#crlf", s.name), text: s.text.replace('\n', "\r\n") })
     .collect();
   sources.extend(crlf);
+  // very deep cuts: chains and nestings of 100–220 levels (recursion bounds, stack guards and fuel
+  // all scale with the HEIGHT of the pattern)
+  let chain = |n: usize| (0..n).map(|i| format!("x{i}")).collect::<Vec<_>>().join(" + ");
+  let nest = |n: usize, open: &str, close: &str, core: &str| format!("{}{}{}", open.repeat(n), core, close.repeat(n));
+  for (lang, name, text) in [
+    (SupportLang::JavaScript, "deep/chain130.js", format!("let s = {};\n", chain(130))),
+    (SupportLang::JavaScript, "deep/array160.js", format!("let a = {};\n", nest(160, "[", "]", "1, 2"))),
+    (SupportLang::Python, "deep/chain129.py", format!("s = {}\n", chain(129))),
+    (SupportLang::Python, "deep/paren150.py", format!("s = {}\n", nest(150, "(", ")", "a, b"))),
+    (SupportLang::Json, "deep/array140.json", format!("{}\n", nest(140, "[", "]", "1, 2"))),
+  ] {
+    sources.push(Source { lang, name: name.to_string(), text });
+  }
   let per_src = if ctx.thorough { 600 } else { 150 };
   let mut guard_pass = 0usize;
   let mut guard_total = 0usize;
@@ -211,14 +224,22 @@ pub fn cut_unit(ctx: &Ctx, rng: &mut Rng, o: &mut Out) {
     let root = grep.root();
     let tid = format!("T{si}");
     let ids = register_tree(o, &tid, src, &root);
-    let nodes: Vec<N> = root
-      .dfs()
-      .filter(|n| n.is_named() && n.range().len() > 0 && n.range().len() <= 400 && !has_error(n))
-      .collect();
+    let deep = src.name.starts_with("deep/");
+    let max_len = if deep { 100_000 } else { 400 };
+    let nodes: Vec<N> = if deep {
+      // only the tall ones: the first few nodes in document order (the sources are well-formed;
+      // `has_error` on every node of a 150-level tree is quadratic times the depth)
+      root.dfs().filter(|n| n.is_named() && n.range().len() > 0).take(5).collect()
+    } else {
+      root
+        .dfs()
+        .filter(|n| n.is_named() && n.range().len() > 0 && n.range().len() <= max_len && !has_error(n))
+        .collect()
+    };
     if nodes.is_empty() {
       continue;
     }
-    for k in 0..per_src {
+    for k in 0..(if deep { 6 } else { per_src }) {
       let n = rng.pick(&nodes);
       // k % 4 == 0: no holes at all (self match)
       let holes = if k % 4 == 0 { vec![] } else { choose_holes(n, rng, &ids, true) };
